@@ -492,7 +492,7 @@ def extract_item(block, unit, fired_total, clauses, meta_items, mode='verus'):
                     elif t.text == '{' and depth == 0 and not any(w == 'braces' for (w, _, _) in block.directives):
                         end = k - 1
                         break
-                    elif t.text == ',' and depth == 0:
+                    elif t.text in (',', ';') and depth == 0:
                         end = k - 1
                         break
                     elif t.text == '{':
